@@ -358,6 +358,11 @@ def tie_maps(rng, n):
         lines.append('PHI sc ' + args); want.append(('Phi_sc', [[th, m['SS'], m['SI'], R], [dth, m['dSS'] * dth, m['dSI'] * dth, dR]]))
         lines.append('PHI cp ' + args); want.append(('Phi_cp', [m['Sk'] + [m['SS'], m['SI'], R], [d * dth for d in m['dSk']] + [m['dSS'] * dth, m['dSI'] * dth, dR]]))
         lines.append('PHI ced ' + args); want.append(('Phi_ced', [m['Skap'] + [R, m['SI']], [d * dth for d in m['dSkap']] + [dR, m['dSI'] * dth]]))
+        # Phi_ed builds (K x K) polynomials of degree ~K^2 with unreduced rational coefficients: exact evaluation only for 3 classes
+        c3 = [(1 - rho) * F(x, 8) for x in _weights(rng, [0, 1, 2], 8, must=(1, 2)).values()]
+        m3 = hier(c3, N, tau, g, s0, r0, th)
+        lines.append('PHI ed %s %s %s %s %s %s %s %s %s %s' % (_ql(c3), _q(N), _q(tau), _q(g), _q(s0), _q(r0), _q(th), _q(R), _q(dth), _q(dR)))
+        want.append(('Phi_ed', [[x for row in m3['Ssi'] for x in row] + [R], [d * dth for row in m3['dSsi'] for d in row] + [dR]]))
         Pk = rand_Pkdict(rng)
         lines.append('PHIPM %s %s %s %s %s %s %s %s' % (_pk(Pk), _q(N), _q(tau), _q(g), _q(th), _q(R), _q(dth), _q(dR)))
         want.append(('Phi_pm', [[R / N] + [x for _ in Pk for x in (th, g / tau * (1 - th))], [dR / N] + [x for _ in Pk for x in (dth, -g / tau * dth)]]))
